@@ -177,6 +177,14 @@ func (r *Runner) N(quick, thorough int) int {
 	return quick
 }
 
+// Ns is N for lists of sizes
+func (r *Runner) Ns(quick, thorough []int) []int {
+	if r.Thorough() {
+		return thorough
+	}
+	return quick
+}
+
 func (r *Runner) fatalHarness(msg string) {
 	r.file.Harness = msg
 	r.flush()
